@@ -833,6 +833,52 @@ var proxyLanes = []lane{
 	{"proxy/grpc-bidi-backend-fails", func(e *c13env, id string, size int, lr *rand.Rand) string {
 		return bidiOver(e.pcc, e.pstd.Full("Bidi"), "fail-"+id, size, lr, "backend-fails")
 	}},
+	{"proxy/http-gzip-client-stream", func(e *c13env, id string, size int, lr *rand.Rand) string {
+		// proxied client stream over HTTP with a gzip request body; every
+		// other call is failed by the back-end after the second message while
+		// the upload is still being delivered, so the forwarder's request pump
+		// is still reading the (pooled) decompressor when the handler returns
+		fail := lr.Intn(2) == 0
+		cid := id
+		if fail {
+			cid = "fail-" + id
+		}
+		if size > 60000 {
+			size = 60000
+		}
+		k := 3 + lr.Intn(4)
+		var body []byte
+		for i := 0; i < k; i++ {
+			b, _ := protojson.Marshal(mkChunk(cid, int32(i), prf(fmt.Sprintf("%s/%d", cid, i), size/k)))
+			body = append(body, b...)
+		}
+		z := wire.Gzip(body)
+		resp := wire.Serve(e.pmux, wire.NewRequest("POST", "/p1/cs", "", http.Header{"Content-Type": {"application/json"}, "Content-Encoding": {"gzip"}}, slowBody(z, lr), -1))
+		if resp.Wedged {
+			return "WEDGED"
+		}
+		if resp.Panic != nil {
+			return "PANIC " + resp.Panic.Key() + ": " + resp.Panic.Value
+		}
+		if fail {
+			if resp.Code == 200 || !strings.Contains(string(resp.Body), "scripted failure "+cid) {
+				return fmt.Sprintf("scripted back-end failure for %s answered %d %.160s", cid, resp.Code, resp.Body)
+			}
+			return ""
+		}
+		if resp.Code != 200 {
+			return fmt.Sprintf("status %d: %.200s", resp.Code, resp.Body)
+		}
+		out := vschema.NewMsg(vschema.Msg("vf.Chunk"))
+		if err := protojson.Unmarshal(resp.Body, out); err != nil {
+			return "reply not JSON: " + err.Error()
+		}
+		gid, gseq, _ := chunkFields(out)
+		if gid != cid || int(gseq) != k {
+			return fmt.Sprintf("client-stream summary id=%s n=%d, want id=%s n=%d", gid, gseq, cid, k)
+		}
+		return ""
+	}},
 	{"socket/grpc-bidi-client-aborts", func(e *c13env, id string, size int, lr *rand.Rand) string {
 		return bidiOver(e.cc, e.std.Full("Bidi"), id, size, lr, "client-aborts")
 	}},
@@ -842,7 +888,7 @@ var c13sizes = []int{0, 1, 4, 5, 63, 64, 65, 127, 128, 129, 1000, 1023, 1024, 10
 
 // RunC13 is the request-isolation check (built with -race).
 func RunC13(r *mon.Run) {
-	r.Rule = "32-128 concurrent clients, each issuing self-describing requests (payload = PRF(request id, length); sizes 0 B-256 KiB around the pooling thresholds) over HTTP JSON / protobuf / gzip request bodies, in-process gRPC identity / gzip, gRPC-web, collect-then-echo bidi streams, JSON client streams, HttpBody unary / streamed uploads (RecvMsg and AsHTTPBodyReader) and downloads (unary, chunked, AsHTTPBodyWriter), plus grpc-go unary / bidi over a real h2c socket, and the same handlers reached through RegisterConn to a real back-end (proxied unary, HTTP JSON, bidi, bidi aborted by the client mid-stream, bidi failed by the back-end mid-stream, i.e. the proxy's pump goroutines with either side failing first); request bodies are delivered by slow fragmenting readers and the codecs / compressor are wrapped by yielding CodecOption / CompressorOption shims, i.e. goroutines are descheduled while pooled buffers are held. Oracles: handlers verify the PRF on every message (collecting handlers re-verify after the whole stream was received), clients verify that each reply is a function of their own request; the Go race detector watches the whole run. distinct = (lane, size class); peak in-flight requests and pooled-buffer reuse events are counted"
+	r.Rule = "32-128 concurrent clients, each issuing self-describing requests (payload = PRF(request id, length); sizes 0 B-256 KiB around the pooling thresholds) over HTTP JSON / protobuf / gzip request bodies, in-process gRPC identity / gzip, gRPC-web, collect-then-echo bidi streams, JSON client streams, HttpBody unary / streamed uploads (RecvMsg and AsHTTPBodyReader) and downloads (unary, chunked, AsHTTPBodyWriter), plus grpc-go unary / bidi over a real h2c socket, and the same handlers reached through RegisterConn to a real back-end (two back-ends per method; proxied unary, HTTP JSON, gzip-encoded HTTP client streams failed by the back-end while the upload is still running, bidi, bidi aborted by the client mid-stream, bidi failed by the back-end mid-stream, i.e. the proxy's pump goroutines with either side failing first); request bodies are delivered by slow fragmenting readers and the codecs / compressor are wrapped by yielding CodecOption / CompressorOption shims, i.e. goroutines are descheduled while pooled buffers are held. Oracles: handlers verify the PRF on every message (collecting handlers re-verify after the whole stream was received), clients verify that each reply is a function of their own request; the Go race detector watches the whole run. distinct = (lane, size class); peak in-flight requests and pooled-buffer reuse events are counted"
 	r.Floor = 20
 	std, err := svc.BuildStd("vf.std", "vf/std13.proto", "/v1")
 	if err != nil {
@@ -898,12 +944,22 @@ func RunC13(r *mon.Run) {
 			r.Inconclusive("harness: " + err.Error())
 			return
 		}
-		rctx, rcancel := context.WithTimeout(context.Background(), 20*time.Second)
-		err = pmux.RegisterConn(rctx, be.CC)
-		rcancel()
+		// two back-ends serve the same service: every proxied method has two
+		// handlers, so the handler pick on the shared snapshot is exercised
+		be2, err := backend.Start("p2", true, backend.Svc{SD: pstd.SD, Impl: impl})
 		if err != nil {
-			r.Inconclusive("harness: RegisterConn: " + err.Error())
+			r.Inconclusive("harness: backend: " + err.Error())
 			return
+		}
+		defer be2.Close()
+		for _, b := range []*backend.Backend{be, be2} {
+			rctx, rcancel := context.WithTimeout(context.Background(), 20*time.Second)
+			err = pmux.RegisterConn(rctx, b.CC)
+			rcancel()
+			if err != nil {
+				r.Inconclusive("harness: RegisterConn: " + err.Error())
+				return
+			}
 		}
 		psrv, err := wire.StartLarking(pmux, nil)
 		if err != nil {
